@@ -16,6 +16,7 @@ import (
 	"fmt"
 	"strings"
 	"sync"
+	"time"
 
 	sdkmath "cosmossdk.io/math"
 
@@ -120,6 +121,7 @@ type gen struct {
 	Kinds      []int
 	MaxSend    int
 	MaxCommits int
+	SameIDs    bool // both chains call their client of the other chain 07-tendermint-0 (the usual situation on fresh chains)
 	mu         sync.Mutex
 	fx         fixture
 	rt         *roundTripper
@@ -163,6 +165,26 @@ func (s *gen) Init(wk *ksim.Worker) *ksim.World {
 	w := wk.Root()
 	w.Ext = &ext{}
 	var fx fixture
+	// ibctesting runs InitChain with a zero block time, which leaves the rate-limit hour epoch in a degenerate
+	// state (number 0, start time 0001-01-01) that the module's BeginBlocker refuses to advance. Install the epoch
+	// a chain started at a real wall-clock time would hold one hour in; the next BeginBlocker advances it normally.
+	for i := range w.CS {
+		// the application's own last header carries an app hash that depends on the worker's random validator keys;
+		// the interchain-accounts host derives account addresses from it, so pin it (ksim keeps the header across commits)
+		hdr := w.CS[i].Ctx.BlockHeader()
+		hdr.AppHash = []byte("verif-c44-deterministic-app-hash!")
+		w.CS[i].Ctx = w.CS[i].Ctx.WithBlockHeader(hdr)
+		app := w.W.Chains[i].App
+		ksim.MustOK("hour epoch", w.Do(i, func(ctx sdk.Context) error {
+			return app.RateLimitKeeper.SetHourEpoch(ctx, ratelimittypes.HourEpoch{EpochNumber: 23, Duration: time.Hour,
+				EpochStartTime: time.Unix(0, ksim.T0).UTC().Add(-time.Hour), EpochStartHeight: 1})
+		}))
+	}
+	if !s.SameIDs {
+		// an unrelated first client on B, so that the two chains' clients of each other carry different identifiers
+		_, r := w.CreateClient(1, 0)
+		ksim.MustOK("create unrelated client on B", r)
+	}
 	l := w.SetupClients(0, 1)
 	w.SetupConnection(l, 0)
 	fx.link = l
@@ -469,18 +491,51 @@ func mk(c *core.C, rt *roundTripper, name string, routes []int, kinds []int, max
 
 func run(c *core.C) {
 	rt := newRoundTripper(c)
-	d := core.Pick(c, 0, 2)
-	all := []int{kOK, kAsync, kShort}
-	parts := []ksim.Part{
-		{Name: "unordered-channel+alias", Cfg: ksim.Config{MaxDepth: 6 + d}, Share: 0.25},
-		{Name: "ordered-channel+v2-client", Cfg: ksim.Config{MaxDepth: 6 + d}, Share: 0.33},
-		{Name: "ics20+rate-limit+forward", Cfg: ksim.Config{MaxDepth: 7 + d}, Share: 0.5},
-		{Name: "all-routes-mixed", Cfg: ksim.Config{MaxDepth: 5 + d}},
+	type pc struct {
+		name                        string
+		routes, kinds               []int
+		maxSend, maxCommits, depthQ int
+		depthT                      int
+		sameIDs                     bool
 	}
-	parts[0].Sc = mk(c, rt, parts[0].Name, []int{rV1U, rV2A}, all, 1+d/2, 2+d/2)
-	parts[1].Sc = mk(c, rt, parts[1].Name, []int{rV1O, rV2C}, all, 1+d/2, 2+d/2)
-	parts[2].Sc = mk(c, rt, parts[2].Name, []int{rT20}, all, 2, 2+d/2)
-	parts[3].Sc = mk(c, rt, parts[3].Name, []int{rV1U, rV1O, rV2A, rV2C, rT20}, []int{kOK, kAsync}, 1, 2)
+	all := []int{kOK, kAsync, kShort}
+	var cfg []pc
+	if c.Quick() && c.Replay == "" {
+		cfg = []pc{
+			{"unordered-channel+alias/sync-acks", []int{rV1U, rV2A}, []int{kOK}, 1, 2, 6, 0, false},
+			{"ordered-channel+v2-client/sync-acks", []int{rV1O, rV2C}, []int{kOK}, 1, 2, 6, 0, false},
+			{"async-acks", []int{rV1U, rV2A, rV2C}, []int{kAsync}, 1, 1, 5, 0, false},
+			{"timeouts", []int{rV1O, rV2A, rV2C}, []int{kShort}, 1, 2, 4, 0, false},
+			{"ics20+rate-limit+forward", []int{rT20}, all, 2, 2, 5, 0, false},
+			{"all-routes-mixed", []int{rV1U, rV1O, rV2A, rV2C, rT20}, []int{kOK}, 1, 1, 3, 0, false},
+			{"same-client-ids-on-both-chains", []int{rV2C}, []int{kOK}, 1, 1, 1, 0, true},
+		}
+	} else {
+		cfg = []pc{
+			{"unordered-channel+alias", []int{rV1U, rV2A}, all, 2, 3, 0, 7, false},
+			{"ordered-channel+v2-client", []int{rV1O, rV2C}, all, 2, 3, 0, 7, false},
+			{"ics20+rate-limit+forward", []int{rT20}, all, 2, 3, 0, 8, false},
+			{"all-routes-mixed", []int{rV1U, rV1O, rV2A, rV2C, rT20}, all, 1, 2, 0, 5, false},
+			{"same-client-ids-on-both-chains", []int{rV2C}, []int{kOK}, 1, 1, 0, 3, true},
+		}
+	}
+	var parts []ksim.Part
+	for _, p := range cfg {
+		sc := mk(c, rt, p.name, p.routes, p.kinds, p.maxSend, p.maxCommits)
+		sc.SameIDs = p.sameIDs
+		parts = append(parts, ksim.Part{Name: p.name, Sc: sc, Cfg: ksim.Config{MaxDepth: max(p.depthQ, p.depthT)}})
+	}
+	if c.Replay != "" {
+		// quick-tier part names replay on an equivalent scenario (op arguments mean the same in both tiers)
+		for _, p := range []pc{
+			{"unordered-channel+alias/sync-acks", []int{rV1U, rV2A}, all, 2, 3, 0, 0, false},
+			{"ordered-channel+v2-client/sync-acks", []int{rV1O, rV2C}, all, 2, 3, 0, 0, false},
+			{"async-acks", []int{rV1U, rV2A, rV2C}, all, 2, 3, 0, 0, false},
+			{"timeouts", []int{rV1O, rV2A, rV2C}, all, 2, 3, 0, 0, false},
+		} {
+			parts = append(parts, ksim.Part{Name: p.name, Sc: mk(c, rt, p.name, p.routes, p.kinds, p.maxSend, p.maxCommits)})
+		}
+	}
 	ksim.RunParts(c, parts, [][]ksim.Op{
 		{{K: "send", A: []int{rV2A, kOK}}, {K: "sync", A: []int{0}}, {K: "recv", A: []int{0}}, {K: "sync", A: []int{1}}, {K: "ack", A: []int{0}}},
 		{{K: "send", A: []int{rT20, kAsync}}, {K: "sync", A: []int{0}}, {K: "recv", A: []int{0}}},
